@@ -16,6 +16,7 @@ import (
 )
 
 const sigOneofLastWins = "oneoffields-last-wins"
+const sigEndWraps = "fieldranges-end-minint32-wraps"
 
 // walker checks every view of every descriptor of one file.
 type walker struct {
@@ -255,12 +256,19 @@ func (w *walker) lookups(at, table string, n int, get func(int) protoreflect.Des
 			implAns[pi] = strconv.Itoa(pos)
 		}
 		if pos != first && !w.propertyOff {
-			sig := ""
 			if lastWinsModel && cnt >= 2 && pos == last {
-				sig = sigOneofLastWins
+				// the known finding (DESIGN 11): classified by view = OneofFields, >= 2 members share the key,
+				// and the answer is the last of them. Reported a few times per run, counted always.
+				w.c.Hist("seen:" + sigOneofLastWins + ":" + table)
+				if w.c.R.Histogram["reported:"+sigOneofLastWins] < 3 {
+					w.c.Hist("reported:" + sigOneofLastWins)
+					w.check(false, "OneofFields."+table+" returns the LAST member carrying the key; the first element with that key is an earlier member (Message.Fields()."+table+" returns the first)",
+						at, map[string]any{"table": table, "key": p, "keys": keys, "returned": pos, "first": first}, sigOneofLastWins)
+				}
+			} else {
+				w.check(false, fmt.Sprintf("%s(%q) returned element %s, the first element with that key is %d", table, p, implAns[pi], first),
+					at, map[string]any{"table": table, "key": p, "keys": keys}, "")
 			}
-			w.check(false, fmt.Sprintf("%s(%q) returned element %s, the first element with that key is %d", table, p, implAns[pi], first),
-				at, map[string]any{"table": table, "key": p, "keys": keys}, sig)
 		}
 	}
 	if !w.c.HasModel() || n == 0 {
@@ -756,8 +764,27 @@ func (w *walker) fieldRanges(at, view string, fr protoreflect.FieldRanges) {
 			}
 		}
 		got[i] = fr.Has(protoreflect.FieldNumber(p))
-		w.check(got[i] == exp, fmt.Sprintf("%s.Has(%d) = %v, membership in the listed ranges (end exclusive) = %v", view, p, got[i], exp),
-			at+" "+view, map[string]any{"list": list, "n": p}, "")
+		if got[i] != exp {
+			// classifier of the known finding: a stored end of MinInt32 makes fieldRange.End() = r[1]-1 wrap to
+			// MaxInt32, so Has answers true for every n >= start although the listed range is empty
+			wrapped := false
+			for _, r := range list {
+				if r[1] == math.MinInt32 && r[0] <= p && got[i] && !exp {
+					wrapped = true
+				}
+			}
+			if wrapped {
+				w.c.Hist("seen:" + sigEndWraps)
+				if w.c.R.Histogram["reported:"+sigEndWraps] < 2 {
+					w.c.Hist("reported:" + sigEndWraps)
+					w.check(false, view+".Has(n) = true for n >= start of a listed range whose stored end is MinInt32 (End() = r[1]-1 wraps to MaxInt32); the listed range [start, MinInt32) is empty",
+						at+" "+view, map[string]any{"list": list, "n": p}, sigEndWraps)
+				}
+				continue
+			}
+			w.check(false, fmt.Sprintf("%s.Has(%d) = %v, membership in the listed ranges (end exclusive) = %v", view, p, got[i], exp),
+				at+" "+view, map[string]any{"list": list, "n": p}, "")
+		}
 	}
 	if w.c.HasModel() && n > 0 {
 		ans := w.c.Ask("fhas %d %s %s", len(probes), probeToks(probes), rangeToks(list))
